@@ -371,9 +371,497 @@ Proof.
     destruct (bseq_next ts' items spE rest Hm) as (y & r & Ey & Hy).
     cbn [app] in Hv. rewrite <- !app_assoc in Hv. rewrite Ey in Hv.
     destruct (bseq_item x Hx p sp1 tx y r st s k e tg kp Hwx Hv Hmx Hy Hbx Hn) as (p1 & R1 & V1).
-    rewrite <- Ey in V1.
-    destruct (IH p1 ts' spE rest SBlockSequenceEntry s k _ tg kp Hw V1 Hm Hb (env_after_pos _ _ Hn)) as (p2 & R2 & V2).
+    destruct (IH p1 ts' spE rest SBlockSequenceEntry s k _ tg kp Hw
+                 ltac:(rewrite V1; f_equal; symmetry; exact Ey) Hm Hb (env_after_pos _ _ Hn)) as (p2 & R2 & V2).
     exists p2. cbn [flat_map]. rewrite number_app, <- app_assoc, env_after_app. split; [|exact V2].
     eapply run_app; [exact R1|]. apply run_steps.
     rewrite (sm_block_sequence_entry p1 (view_state _ _ _ _ _ _ _ _ V1)). exact R2.
+Qed.
+
+(* numbering of a collection: start event, children, end event *)
+Lemma number_coll tg e (s1 : pev) l (s2 : pev) :
+  number tg e (s1 :: l ++ [s2]) =
+  number1 tg e s1 :: number tg (env_step e s1) l ++ [number1 tg (env_after (env_step e s1) l) s2].
+Proof. cbn [number]. rewrite number_app. reflexivity. Qed.
+Lemma env_after_coll e (s1 : pev) l (s2 : pev) :
+  env_after e (s1 :: l ++ [s2]) = env_step (env_after (env_step e s1) l) s2.
+Proof. unfold env_after. cbn [fold_left]. rewrite fold_left_app. reflexivity. Qed.
+Lemma bound_coll tg e (s1 : pev) l (s2 : pev) :
+  bound tg e (s1 :: l ++ [s2]) = true -> bound1 tg e s1 = true /\ bound tg (env_step e s1) l = true.
+Proof.
+  cbn [bound]. rewrite bound_app. intros H. apply andb_prop in H as [H1 H]. apply andb_prop in H as [H2 _]. auto.
+Qed.
+
+Lemma bse_first u t0 S K a n tg kp :
+  block_sequence_entry (mkp u (Some t0) S K a n tg kp) true = block_sequence_entry (mkp u None S K a n tg kp) false.
+Proof. reflexivity. Qed.
+
+Lemma node_bseq pr items : Forall NodeSpec items -> NodeSpec (LBSeq pr items).
+Proof.
+  intros HF b i p ts x rest st0 s k e tg kp Hw Hv Hm Hf _ Hb Hn. open_env e a n.
+  cbn [wf] in Hw. apply andb_prop in Hw as [-> Hw].
+  cbn [tokens_of] in Hm.
+  apply map_snd_app in Hm as (tp & t2 & -> & Hmp & Hm).
+  apply map_snd_cons in Hm as (spS & t3 & -> & Hm).
+  apply map_snd_app in Hm as (tb & t4 & -> & Hmb & Hm).
+  apply map_snd_cons in Hm as (spE & t5 & -> & Hm). apply map_snd_nil in Hm as ->.
+  rewrite <- !app_assoc in Hv. cbn [app] in Hv. rewrite <- !app_assoc in Hv. cbn [app] in Hv.
+  cbn [pre_events] in Hb |- *. apply bound_coll in Hb as [Hb1 Hb]. cbn [bound1] in Hb1.
+  destruct (parse_node_props pr p _ _ _ _ _ _ _ _ _ true i Hv Hmp eq_refl Hb1) as (q & Eq & Vq).
+  unfold node_content in Eq. vpeek_in Vq Eq. cbn in Eq.
+  set (e1 := snd (reg (pr_anchor pr) (penv a n))) in *.
+  assert (Hn1 : (0 < ae_next e1)%N) by (apply reg_next_pos; exact Hn).
+  destruct (bseq_entries items HF (mkp (tb ++ (spE, TBlockEnd) :: x :: rest) None SBlockSequenceFirstEntry (s :: k) (ae_map e1) (ae_next e1) tg kp)
+              tb spE (x :: rest) SBlockSequenceFirstEntry s k e1 tg kp Hw eq_refl Hmb Hb Hn1) as (p2 & R2 & V2).
+  exists p2. rewrite number_coll, env_after_coll. split; [|exact V2].
+  eapply run_cons; [exact Eq|]. apply run_steps. cbn [state_machine p_state set_state mkp].
+  exact R2.
+Qed.
+
+(* ---------- indentless sequences ---------- *)
+Definition bkvbe (x : tok) : bool := match x with TBlockEntry => true | _ => kvbe x end.
+
+Lemma kvbe_follow x : kvbe x = true -> follow x = true.
+Proof. destruct x; cbn; congruence. Qed.
+Lemma bkvbe_follow x : bkvbe x = true -> follow x = true.
+Proof. destruct x; cbn; congruence. Qed.
+
+Lemma iseq_item x : NodeSpec x -> forall p sp1 tx y r st s k e tg kp,
+  is_none x || wf true false x = true ->
+  view p = mkv ((sp1, TBlockEntry) :: tx ++ y :: r) st (s :: k) (ae_map e) (ae_next e) tg kp ->
+  map snd tx = tokens_of x ->
+  bkvbe (snd y) = true ->
+  bound tg e (pre_events x) = true -> (0 < ae_next e)%N ->
+  exists p1, run (indentless_sequence_entry p) (number tg e (pre_events x)) p1 /\
+     view p1 = mkv (y :: r) SIndentlessSequenceEntry (s :: k) (ae_map (env_after e (pre_events x)))
+                   (ae_next (env_after e (pre_events x))) tg kp.
+Proof.
+  intros Hx p sp1 tx y r st s k e tg kp Hw Hv Hm Hy Hb Hn.
+  pose proof (bkvbe_follow _ Hy) as Hfy.
+  destruct (is_none x) eqn:EN; cbn [orb] in Hw.
+  - destruct x; try discriminate. cbn [tokens_of] in Hm. apply map_snd_nil in Hm as ->. cbn [app] in Hv.
+    destruct y as [spy ty]. cbn [snd] in Hy.
+    assert (Eq : indentless_sequence_entry p =
+                 Ok ((empty_scalar, spy), mkp r (Some (spy, ty)) SIndentlessSequenceEntry (s :: k) (ae_map e) (ae_next e) tg kp))
+      by (unfold indentless_sequence_entry; vpeek Hv; cbn; destruct ty; try discriminate; reflexivity).
+    eexists. split; [eapply run_one; exact Eq | reflexivity].
+  - destruct (first_tok_spanned _ _ _ _ Hw Hm) as (sp0 & y0 & tx' & -> & [S0 | [? _]]); [|discriminate].
+    cbn [app] in Hv.
+    assert (Eq : indentless_sequence_entry p =
+                 parse_node (push_state (mkp (tx' ++ y :: r) (Some (sp0, y0)) st (s :: k) (ae_map e) (ae_next e) tg kp)
+                                        SIndentlessSequenceEntry) true false)
+      by (unfold indentless_sequence_entry; vpeek Hv; cbn; start_cases y0; reflexivity).
+    rewrite Eq.
+    match type of Eq with _ = parse_node ?q _ _ =>
+      apply (Hx true false q ((sp0, y0) :: tx') y r st SIndentlessSequenceEntry (s :: k) e tg kp Hw eq_refl Hm Hfy
+                ltac:(discriminate) Hb Hn)
+    end.
+Qed.
+
+Lemma iseq_next (ts : list token) items (x : token) rest :
+  map snd ts = flat_map (fun x => TBlockEntry :: tokens_of x) items -> kvbe (snd x) = true ->
+  exists y r, ts ++ x :: rest = y :: r /\ bkvbe (snd y) = true.
+Proof.
+  destruct items as [|x0 items]; cbn; intros H Hx.
+  - apply map_snd_nil in H as ->. cbn. exists x, rest. split; [reflexivity|]. destruct (snd x); try discriminate; reflexivity.
+  - apply map_snd_cons in H as (sp & t2 & -> & _). cbn. eauto.
+Qed.
+
+Lemma iseq_entries items : Forall NodeSpec items ->
+  forall p ts x rest st s k e tg kp,
+  forallb (fun x => is_none x || wf true false x) items = true ->
+  view p = mkv (ts ++ x :: rest) st (s :: k) (ae_map e) (ae_next e) tg kp ->
+  map snd ts = flat_map (fun x => TBlockEntry :: tokens_of x) items ->
+  kvbe (snd x) = true ->
+  bound tg e (flat_map pre_events items) = true -> (0 < ae_next e)%N ->
+  exists p2, run (indentless_sequence_entry p) (number tg e (flat_map pre_events items) ++ [ESequenceEnd]) p2 /\
+     view p2 = mkv (x :: rest) s k (ae_map (env_after e (flat_map pre_events items)))
+                   (ae_next (env_after e (flat_map pre_events items))) tg kp.
+Proof.
+  induction 1 as [|x0 items Hx HF IH]; intros p ts x rest st s k e tg kp Hw Hv Hm Hk Hb Hn.
+  - cbn in Hm. apply map_snd_nil in Hm as ->. cbn [app] in Hv. destruct x as [spx tx].
+    assert (Eq : indentless_sequence_entry p =
+                 Ok ((ESequenceEnd, spx), mkp rest (Some (spx, tx)) s k (ae_map e) (ae_next e) tg kp))
+      by (unfold indentless_sequence_entry; vpeek Hv; cbn; cbn [snd] in Hk; destruct tx; try discriminate; reflexivity).
+    eexists. split; [eapply run_one; exact Eq | reflexivity].
+  - cbn [flat_map] in Hm, Hb. cbn [forallb] in Hw. apply andb_prop in Hw as [Hwx Hw].
+    rewrite bound_app in Hb. apply andb_prop in Hb as [Hbx Hb].
+    apply map_snd_app in Hm as (t1 & ts' & -> & Hm1 & Hm).
+    apply map_snd_cons in Hm1 as (sp1 & tx & -> & Hmx).
+    destruct (iseq_next ts' items x rest Hm Hk) as (y & r & Ey & Hy).
+    cbn [app] in Hv. rewrite <- !app_assoc in Hv. rewrite Ey in Hv.
+    destruct (iseq_item x0 Hx p sp1 tx y r st s k e tg kp Hwx Hv Hmx Hy Hbx Hn) as (p1 & R1 & V1).
+    destruct (IH p1 ts' x rest SIndentlessSequenceEntry s k _ tg kp Hw
+                 ltac:(rewrite V1; f_equal; symmetry; exact Ey) Hm Hk Hb (env_after_pos _ _ Hn)) as (p2 & R2 & V2).
+    exists p2. cbn [flat_map]. rewrite number_app, <- app_assoc, env_after_app. split; [|exact V2].
+    eapply run_app; [exact R1|]. apply run_steps.
+    rewrite (sm_indentless p1 (view_state _ _ _ _ _ _ _ _ V1)). exact R2.
+Qed.
+
+Lemma node_iseq pr items : Forall NodeSpec items -> NodeSpec (LISeq pr items).
+Proof.
+  intros HF b i p ts x rest st0 s k e tg kp Hw Hv Hm Hf Hi Hb Hn. open_env e a n.
+  cbn [wf] in Hw. apply andb_prop in Hw as [Hw Hw2]. apply andb_prop in Hw as [Hw Hne].
+  apply andb_prop in Hw as [-> ->]. specialize (Hi eq_refl).
+  cbn [tokens_of] in Hm.
+  apply map_snd_app in Hm as (tp & tb & -> & Hmp & Hmb).
+  rewrite <- !app_assoc in Hv.
+  cbn [pre_events] in Hb |- *. apply bound_coll in Hb as [Hb1 Hb]. cbn [bound1] in Hb1.
+  destruct items as [|x0 items]; [discriminate|].
+  pose proof Hmb as Hmb'. cbn [flat_map app] in Hmb'. apply map_snd_cons in Hmb' as (sp1 & tb' & Etb & _).
+  rewrite Etb in Hv. cbn [app] in Hv.
+  destruct (parse_node_props pr p _ _ _ _ _ _ _ _ _ true true Hv Hmp eq_refl Hb1) as (q & Eq & Vq).
+  unfold node_content in Eq. vpeek_in Vq Eq. cbn in Eq.
+  set (e1 := snd (reg (pr_anchor pr) (penv a n))) in *.
+  assert (Hn1 : (0 < ae_next e1)%N) by (apply reg_next_pos; exact Hn).
+  match type of Eq with _ = Ok (_, ?p1) =>
+    destruct (iseq_entries (x0 :: items) HF p1 tb x rest SIndentlessSequenceEntry s k e1 tg kp Hw2
+                ltac:(rewrite Etb; reflexivity) Hmb Hi Hb Hn1) as (p2 & R2 & V2)
+  end.
+  exists p2. rewrite number_coll, env_after_coll. split; [|exact V2].
+  eapply run_cons; [exact Eq|]. apply run_steps. exact R2.
+Qed.
+
+(* ---------- block mappings ---------- *)
+Lemma bm_key kt kn : NodeSpec kn -> forall p tkk tk y r st s k e tg kp,
+  is_none kn || wf true true kn = true ->
+  (kt = true \/ (is_none kn = true /\ snd y = TValue)) ->
+  view p = mkv (tkk ++ tk ++ y :: r) st (s :: k) (ae_map e) (ae_next e) tg kp ->
+  map snd tkk = flag kt TKey -> map snd tk = tokens_of kn ->
+  kvbe (snd y) = true ->
+  bound tg e (pre_events kn) = true -> (0 < ae_next e)%N ->
+  exists p1, run (block_mapping_key p false) (number tg e (pre_events kn)) p1 /\
+     view p1 = mkv (y :: r) SBlockMappingValue (s :: k) (ae_map (env_after e (pre_events kn)))
+                   (ae_next (env_after e (pre_events kn))) tg kp.
+Proof.
+  intros Hx p tkk tk y r st s k e tg kp Hw Hkt Hv Hmk Hm Hy Hb Hn.
+  pose proof (kvbe_follow _ Hy) as Hfy.
+  destruct kt.
+  - (* Key token present *)
+    cbn in Hmk. apply map_snd_cons in Hmk as (spK & t2 & -> & Hmk). apply map_snd_nil in Hmk as ->. cbn [app] in Hv.
+    destruct (is_none kn) eqn:EN; cbn [orb] in Hw.
+    + destruct kn; try discriminate. cbn [tokens_of] in Hm. apply map_snd_nil in Hm as ->. cbn [app] in Hv.
+      destruct y as [spy ty]. cbn [snd] in Hy.
+      assert (Eq : block_mapping_key p false =
+                   Ok ((empty_scalar, spy), mkp r (Some (spy, ty)) SBlockMappingValue (s :: k) (ae_map e) (ae_next e) tg kp))
+        by (unfold block_mapping_key; vpeek Hv; cbn; destruct ty; try discriminate; reflexivity).
+      eexists. split; [eapply run_one; exact Eq | reflexivity].
+    + destruct (first_tok_spanned _ _ _ _ Hw Hm) as (sp0 & y0 & tx' & -> & S0).
+      cbn [app] in Hv.
+      assert (Eq : block_mapping_key p false =
+                   parse_node (push_state (mkp (tx' ++ y :: r) (Some (sp0, y0)) st (s :: k) (ae_map e) (ae_next e) tg kp)
+                                          SBlockMappingValue) true true)
+        by (unfold block_mapping_key; vpeek Hv; cbn; destruct S0 as [S0 | [_ ->]]; [start_cases y0|]; reflexivity).
+      rewrite Eq.
+      match type of Eq with _ = parse_node ?q _ _ =>
+        apply (Hx true true q ((sp0, y0) :: tx') y r st SBlockMappingValue (s :: k) e tg kp Hw eq_refl Hm Hfy
+                  ltac:(intros _; exact Hy) Hb Hn)
+      end.
+  - (* no Key token: the key is left out and a Value token follows *)
+    destruct Hkt as [?|[EN Hyv]]; [discriminate|].
+    cbn in Hmk. apply map_snd_nil in Hmk as ->. destruct kn; try discriminate.
+    cbn [tokens_of] in Hm. apply map_snd_nil in Hm as ->. cbn [app] in Hv.
+    destruct y as [spy ty]. cbn [snd] in Hyv. subst ty.
+    assert (Eq : block_mapping_key p false =
+                 Ok ((empty_scalar, spy), mkp r (Some (spy, TValue)) SBlockMappingValue (s :: k) (ae_map e) (ae_next e) tg kp))
+      by (unfold block_mapping_key; vpeek Hv; reflexivity).
+    eexists. split; [eapply run_one; exact Eq | reflexivity].
+Qed.
+
+Lemma bm_value vt vn : NodeSpec vn -> forall p tvv tv y r st s k e tg kp,
+  is_none vn || wf true true vn = true ->
+  (vt = true \/ (is_none vn = true /\ snd y <> TValue)) ->
+  view p = mkv (tvv ++ tv ++ y :: r) st (s :: k) (ae_map e) (ae_next e) tg kp ->
+  map snd tvv = flag vt TValue -> map snd tv = tokens_of vn ->
+  kvbe (snd y) = true ->
+  bound tg e (pre_events vn) = true -> (0 < ae_next e)%N ->
+  exists p1, run (block_mapping_value p) (number tg e (pre_events vn)) p1 /\
+     view p1 = mkv (y :: r) SBlockMappingKey (s :: k) (ae_map (env_after e (pre_events vn)))
+                   (ae_next (env_after e (pre_events vn))) tg kp.
+Proof.
+  intros Hx p tvv tv y r st s k e tg kp Hw Hvt Hv Hmv Hm Hy Hb Hn.
+  pose proof (kvbe_follow _ Hy) as Hfy.
+  destruct vt.
+  - cbn in Hmv. apply map_snd_cons in Hmv as (spV & t2 & -> & Hmv). apply map_snd_nil in Hmv as ->. cbn [app] in Hv.
+    destruct (is_none vn) eqn:EN; cbn [orb] in Hw.
+    + destruct vn; try discriminate. cbn [tokens_of] in Hm. apply map_snd_nil in Hm as ->. cbn [app] in Hv.
+      destruct y as [spy ty]. cbn [snd] in Hy.
+      assert (Eq : block_mapping_value p =
+                   Ok ((empty_scalar, spy), mkp r (Some (spy, ty)) SBlockMappingKey (s :: k) (ae_map e) (ae_next e) tg kp))
+        by (unfold block_mapping_value; vpeek Hv; cbn; destruct ty; try discriminate; reflexivity).
+      eexists. split; [eapply run_one; exact Eq | reflexivity].
+    + destruct (first_tok_spanned _ _ _ _ Hw Hm) as (sp0 & y0 & tx' & -> & S0).
+      cbn [app] in Hv.
+      assert (Eq : block_mapping_value p =
+                   parse_node (push_state (mkp (tx' ++ y :: r) (Some (sp0, y0)) st (s :: k) (ae_map e) (ae_next e) tg kp)
+                                          SBlockMappingKey) true true)
+        by (unfold block_mapping_value; vpeek Hv; cbn; destruct S0 as [S0 | [_ ->]]; [start_cases y0|]; reflexivity).
+      rewrite Eq.
+      match type of Eq with _ = parse_node ?q _ _ =>
+        apply (Hx true true q ((sp0, y0) :: tx') y r st SBlockMappingKey (s :: k) e tg kp Hw eq_refl Hm Hfy
+                  ltac:(intros _; exact Hy) Hb Hn)
+      end.
+  - destruct Hvt as [?|[EN Hyv]]; [discriminate|].
+    cbn in Hmv. apply map_snd_nil in Hmv as ->. destruct vn; try discriminate.
+    cbn [tokens_of] in Hm. apply map_snd_nil in Hm as ->. cbn [app] in Hv.
+    destruct y as [spy ty]. cbn [snd] in Hyv, Hy.
+    assert (Eq : block_mapping_value p =
+                 Ok ((empty_scalar, spy), mkp r (Some (spy, ty)) SBlockMappingKey (s :: k) (ae_map e) (ae_next e) tg kp))
+      by (unfold block_mapping_value; vpeek Hv; destruct ty; try discriminate; try reflexivity; congruence).
+    eexists. split; [eapply run_one; exact Eq | reflexivity].
+Qed.
+
+Definition head_kt (l : list (entry ltree)) : bool := match l with (kt, _, _) :: _ => kt | [] => true end.
+
+Lemma bm_next (ts : list token) ents spE rest :
+  map snd ts = flat_map (ent_toks tokens_of) ents ->
+  forallb (ent_wf (wf true true)) ents = true ->
+  exists y r, ts ++ (spE, TBlockEnd) :: rest = y :: r /\ kvbe (snd y) = true /\ (head_kt ents = true -> snd y <> TValue).
+Proof.
+  destruct ents as [|[[kt kn] [vt vn]] ents]; cbn [flat_map ent_toks forallb ent_wf head_kt]; intros H Hw.
+  - apply map_snd_nil in H as ->. cbn. eexists; eexists; split; [reflexivity|]. split; [reflexivity|discriminate].
+  - destruct kt; cbn [flag app] in H.
+    + apply map_snd_cons in H as (sp & t2 & -> & _). cbn. eexists; eexists; split; [reflexivity|]. split; [reflexivity|discriminate].
+    + apply andb_prop in Hw as [Hw _]. apply andb_prop in Hw as [Hw _]. apply andb_prop in Hw as [Hw _]. apply andb_prop in Hw as [Hw _].
+      cbn [orb] in Hw. apply andb_prop in Hw as [Hk Hvt]. destruct kn; try discriminate. subst vt.
+      cbn [tokens_of flag app] in H. apply map_snd_cons in H as (sp & t2 & -> & _). cbn.
+      eexists; eexists; split; [reflexivity|]. split; [reflexivity|discriminate].
+Qed.
+
+Lemma adj_ok_tail en ents : adj_ok (en :: ents) = true ->
+  adj_ok ents = true /\ (fst (snd en) = false -> head_kt ents = true).
+Proof.
+  destruct en as [[kt kn] [vt vn]]. destruct ents as [|[[kt' kn'] [vt' vn']] ents]; cbn [adj_ok head_kt fst snd].
+  - auto.
+  - intros H. apply andb_prop in H as [H1 H2]. split; [exact H2|]. intros ->. exact H1.
+Qed.
+
+Lemma bm_entries ents : Forall (fun en => NodeSpec (snd (fst en)) /\ NodeSpec (snd (snd en))) ents ->
+  forall p ts spE rest st s k e tg kp,
+  forallb (ent_wf (wf true true)) ents = true -> adj_ok ents = true ->
+  view p = mkv (ts ++ (spE, TBlockEnd) :: rest) st (s :: k) (ae_map e) (ae_next e) tg kp ->
+  map snd ts = flat_map (ent_toks tokens_of) ents ->
+  bound tg e (flat_map (ent_pre pre_events) ents) = true -> (0 < ae_next e)%N ->
+  exists p2, run (block_mapping_key p false) (number tg e (flat_map (ent_pre pre_events) ents) ++ [EMappingEnd]) p2 /\
+     view p2 = mkv rest s k (ae_map (env_after e (flat_map (ent_pre pre_events) ents)))
+                   (ae_next (env_after e (flat_map (ent_pre pre_events) ents))) tg kp.
+Proof.
+  induction 1 as [|en ents [Hk Hvn] HF IH]; intros p ts spE rest st s k e tg kp Hw Hadj Hv Hm Hb Hn.
+  - cbn in Hm. apply map_snd_nil in Hm as ->. cbn [app] in Hv. eexists. split.
+    + cbn [flat_map number app]. eapply run_one. unfold block_mapping_key. vpeek Hv. cbn. reflexivity.
+    + reflexivity.
+  - destruct en as [[kt kn] [vt vn]]. cbn [fst snd] in Hk, Hvn.
+    cbn [flat_map ent_toks ent_pre] in Hm, Hb. cbn [forallb ent_wf] in Hw. apply andb_prop in Hw as [Hwe Hw].
+    apply andb_prop in Hwe as [Hwe Hwv]. apply andb_prop in Hwe as [Hwe Hwk]. apply andb_prop in Hwe as [Hkt Hvt].
+    apply adj_ok_tail in Hadj as [Hadj Hhead]. cbn [fst snd] in Hhead.
+    rewrite !bound_app in Hb. apply andb_prop in Hb as [Hb Hbr]. apply andb_prop in Hb as [Hbk Hbv].
+    rewrite env_after_app in Hbr.
+    apply map_snd_app in Hm as (t1 & ts' & -> & Hm1 & Hm).
+    apply map_snd_app in Hm1 as (tkk & t2 & -> & Hmkk & Hm1).
+    apply map_snd_app in Hm1 as (tk & t3 & -> & Hmk & Hm1).
+    apply map_snd_app in Hm1 as (tvv & tv & -> & Hmvv & Hmv).
+    destruct (bm_next ts' ents spE rest Hm Hw) as (yv & rv & Ey & Hyv & Hyv2).
+    rewrite <- !app_assoc in Hv. rewrite Ey in Hv.
+    cbn [flat_map ent_pre]. rewrite !number_app, <- !app_assoc, !env_after_app.
+    assert (Hval : forall p1 (e1 : aenv), (0 < ae_next e1)%N -> bound tg e1 (pre_events vn) = true ->
+              bound tg (env_after e1 (pre_events vn)) (flat_map (ent_pre pre_events) ents) = true ->
+              view p1 = mkv (tvv ++ tv ++ yv :: rv) SBlockMappingValue (s :: k) (ae_map e1) (ae_next e1) tg kp ->
+              exists p2, steps p1 (number tg e1 (pre_events vn) ++
+                                   number tg (env_after e1 (pre_events vn)) (flat_map (ent_pre pre_events) ents) ++ [EMappingEnd]) p2 /\
+                view p2 = mkv rest s k (ae_map (env_after (env_after e1 (pre_events vn)) (flat_map (ent_pre pre_events) ents)))
+                              (ae_next (env_after (env_after e1 (pre_events vn)) (flat_map (ent_pre pre_events) ents))) tg kp).
+    { intros p1 e1 Hn1 Hbv1 Hbr1 V1.
+      assert (Hvt' : vt = true \/ (is_none vn = true /\ snd yv <> TValue)).
+      { destruct vt; [left; reflexivity|right]. cbn [orb] in Hvt. split; [exact Hvt|]. apply Hyv2, Hhead. reflexivity. }
+      destruct (bm_value vt vn Hvn p1 tvv tv yv rv SBlockMappingValue s k e1 tg kp Hwv Hvt' V1 Hmvv Hmv Hyv Hbv1 Hn1) as (p2 & R2 & V2).
+      destruct (IH p2 ts' spE rest SBlockMappingKey s k _ tg kp Hw Hadj
+                   ltac:(rewrite V2; f_equal; symmetry; exact Ey) Hm Hbr1 (env_after_pos _ _ Hn1)) as (p3 & R3 & V3).
+      exists p3. split; [|exact V3].
+      eapply steps_app.
+      - apply run_steps. rewrite (sm_block_mapping_value p1 (view_state _ _ _ _ _ _ _ _ V1)). exact R2.
+      - apply run_steps. rewrite (sm_block_mapping_key p2 (view_state _ _ _ _ _ _ _ _ V2)). exact R3. }
+    destruct vt.
+    + (* a Value token follows the key *)
+      pose proof Hmvv as Hmvv'. cbn in Hmvv'. apply map_snd_cons in Hmvv' as (spV & t4 & Etvv & Hm4). apply map_snd_nil in Hm4 as ->.
+      rewrite Etvv in Hv. cbn [app] in Hv.
+      assert (Hkt' : kt = true \/ (is_none kn = true /\ snd (spV, TValue) = TValue)).
+      { destruct kt; [left; reflexivity|right]. cbn [orb] in Hkt. apply andb_prop in Hkt as [Hkn _]. split; [exact Hkn|reflexivity]. }
+      destruct (bm_key kt kn Hk p tkk tk (spV, TValue) (tv ++ yv :: rv) st s k e tg kp Hwk Hkt' Hv Hmkk Hmk eq_refl Hbk Hn) as (p1 & R1 & V1).
+      destruct (Hval p1 _ (env_after_pos _ _ Hn) Hbv Hbr ltac:(rewrite Etvv; exact V1)) as (p2 & R2 & V2).
+      exists p2. split; [|exact V2]. eapply run_app; [exact R1|exact R2].
+    + (* no Value token: the value is left out *)
+      cbn [orb] in Hvt. destruct vn; try discriminate. cbn [tokens_of] in Hmv. apply map_snd_nil in Hmv as ->.
+      pose proof Hmvv as Hmvv'. cbn in Hmvv'. apply map_snd_nil in Hmvv'. subst tvv. cbn [app] in Hv.
+      assert (Hkt' : kt = true \/ (is_none kn = true /\ snd yv = TValue)).
+      { destruct kt; [left; reflexivity|]. cbn [orb] in Hkt. apply andb_prop in Hkt as [_ ?]. discriminate. }
+      destruct (bm_key kt kn Hk p tkk tk yv rv st s k e tg kp Hwk Hkt' Hv Hmkk Hmk Hyv Hbk Hn) as (p1 & R1 & V1).
+      destruct (Hval p1 _ (env_after_pos _ _ Hn) Hbv Hbr V1) as (p2 & R2 & V2).
+      exists p2. split; [|exact V2]. eapply run_app; [exact R1|exact R2].
+Qed.
+
+Lemma bmk_first u t0 S K a n tg kp :
+  block_mapping_key (mkp u (Some t0) S K a n tg kp) true = block_mapping_key (mkp u None S K a n tg kp) false.
+Proof. reflexivity. Qed.
+
+Lemma node_bmap pr ents : Forall (fun en => NodeSpec (snd (fst en)) /\ NodeSpec (snd (snd en))) ents -> NodeSpec (LBMap pr ents).
+Proof.
+  intros HF b i p ts x rest st0 s k e tg kp Hw Hv Hm Hf _ Hb Hn. open_env e a n.
+  cbn [wf] in Hw. apply andb_prop in Hw as [Hw Hadj]. apply andb_prop in Hw as [-> Hw].
+  cbn [tokens_of] in Hm.
+  apply map_snd_app in Hm as (tp & t2 & -> & Hmp & Hm).
+  apply map_snd_cons in Hm as (spS & t3 & -> & Hm).
+  apply map_snd_app in Hm as (tb & t4 & -> & Hmb & Hm).
+  apply map_snd_cons in Hm as (spE & t5 & -> & Hm). apply map_snd_nil in Hm as ->.
+  rewrite <- !app_assoc in Hv. cbn [app] in Hv. rewrite <- !app_assoc in Hv. cbn [app] in Hv.
+  cbn [pre_events] in Hb |- *. apply bound_coll in Hb as [Hb1 Hb]. cbn [bound1] in Hb1.
+  destruct (parse_node_props pr p _ _ _ _ _ _ _ _ _ true i Hv Hmp eq_refl Hb1) as (q & Eq & Vq).
+  unfold node_content in Eq. vpeek_in Vq Eq. cbn in Eq.
+  set (e1 := snd (reg (pr_anchor pr) (penv a n))) in *.
+  assert (Hn1 : (0 < ae_next e1)%N) by (apply reg_next_pos; exact Hn).
+  destruct (bm_entries ents HF (mkp (tb ++ (spE, TBlockEnd) :: x :: rest) None SBlockMappingFirstKey (s :: k) (ae_map e1) (ae_next e1) tg kp)
+              tb spE (x :: rest) SBlockMappingFirstKey s k e1 tg kp Hw Hadj eq_refl Hmb Hb Hn1) as (p2 & R2 & V2).
+  exists p2. rewrite number_coll, env_after_coll. split; [|exact V2].
+  eapply run_cons; [exact Eq|]. apply run_steps. cbn [state_machine p_state set_state mkp].
+  exact R2.
+Qed.
+
+(* ---------- flow sequences ---------- *)
+Lemma sm_flow_sequence_entry q : p_state q = SFlowSequenceEntry -> state_machine q = flow_sequence_entry q false.
+Proof. unfold state_machine. intros ->. reflexivity. Qed.
+Lemma sm_fsem_key q : p_state q = SFlowSequenceEntryMappingKey -> state_machine q = flow_sequence_entry_mapping_key q.
+Proof. unfold state_machine. intros ->. reflexivity. Qed.
+Lemma sm_fsem_value q : p_state q = SFlowSequenceEntryMappingValue -> state_machine q = flow_sequence_entry_mapping_value q.
+Proof. unfold state_machine. intros ->. reflexivity. Qed.
+Lemma sm_fsem_end q m : p_state q = SFlowSequenceEntryMappingEnd m -> state_machine q = flow_sequence_entry_mapping_end q m.
+Proof. unfold state_machine. intros ->. reflexivity. Qed.
+
+Lemma view_set_state p u s k a n tg kp s' :
+  view p = mkv u s k a n tg kp -> view (set_state p s') = mkv u s' k a n tg kp.
+Proof. unfold view, upcoming. cbn. intros H; inversion H; subst. reflexivity. Qed.
+
+Definition fse_inner (p : parser) : sres :=
+  do (t, p) <- peek p;
+  match t with
+  | (sp, TFlowSequenceEnd) => do p <- pop_state p; Ok ((ESequenceEnd, sp), skip p)
+  | (sp, TKey) => Ok ((EMappingStart 0 None, sp), skip (set_state p SFlowSequenceEntryMappingKey))
+  | _ => parse_node (push_state p SFlowSequenceEntry) false false
+  end.
+
+Lemma fse_next p spF u st k a n tg kp :
+  view p = mkv ((spF, TFlowEntry) :: u) st k a n tg kp ->
+  flow_sequence_entry p false = fse_inner (mkp u None st k a n tg kp).
+Proof. intros Hv. unfold flow_sequence_entry, fse_inner. vpeek Hv. reflexivity. Qed.
+
+Lemma fse_first spx x u t0 S K a n tg kp : x <> TFlowSequenceEnd ->
+  flow_sequence_entry (mkp ((spx, x) :: u) (Some t0) S K a n tg kp) true = fse_inner (mkp u (Some (spx, x)) S K a n tg kp).
+Proof. intros Hx. destruct x; try congruence; reflexivity. Qed.
+
+Definition fen_fse (x : tok) : bool := match x with TFlowEntry | TFlowSequenceEnd => true | _ => false end.
+Lemma fen_fse_follow x : fen_fse x = true -> follow x = true.
+Proof. destruct x; cbn; congruence. Qed.
+
+Lemma fs_entry en :
+  match en with inl n => NodeSpec n | inr (kn, (_, vn)) => NodeSpec kn /\ NodeSpec vn end ->
+  forall q te y r st s k e tg kp,
+  fsent_wf (wf false false) en = true ->
+  view q = mkv (te ++ y :: r) st (s :: k) (ae_map e) (ae_next e) tg kp ->
+  map snd te = fsent_toks tokens_of en ->
+  fen_fse (snd y) = true ->
+  bound tg e (fsent_pre pre_events en) = true -> (0 < ae_next e)%N ->
+  exists p1, run (fse_inner q) (number tg e (fsent_pre pre_events en)) p1 /\
+     view p1 = mkv (y :: r) SFlowSequenceEntry (s :: k) (ae_map (env_after e (fsent_pre pre_events en)))
+                   (ae_next (env_after e (fsent_pre pre_events en))) tg kp.
+Proof.
+  intros Hx q te y r st s k e tg kp Hw Hv Hm Hy Hb Hn.
+  pose proof (fen_fse_follow _ Hy) as Hfy.
+  destruct en as [nd | [kn [vt vn]]]; cbn [fsent_wf fsent_toks fsent_pre] in *.
+  - (* a node *)
+    destruct (first_tok_spanned _ _ _ _ Hw Hm) as (sp0 & y0 & tx' & -> & [S0 | [? _]]); [|discriminate].
+    cbn [app] in Hv.
+    assert (Eq : fse_inner q = parse_node (push_state (mkp (tx' ++ y :: r) (Some (sp0, y0)) st (s :: k) (ae_map e) (ae_next e) tg kp)
+                                                      SFlowSequenceEntry) false false)
+      by (unfold fse_inner; vpeek Hv; cbn; start_cases y0; reflexivity).
+    rewrite Eq.
+    match type of Eq with _ = parse_node ?q' _ _ =>
+      apply (Hx false false q' ((sp0, y0) :: tx') y r st SFlowSequenceEntry (s :: k) e tg kp Hw eq_refl Hm Hfy
+                ltac:(discriminate) Hb Hn)
+    end.
+  - (* Key key [Value value]: a single pair the scanner did not wrap *)
+    destruct Hx as [Hk Hvn].
+    apply andb_prop in Hw as [Hw Hwv]. apply andb_prop in Hw as [Hwk Hvt].
+    apply map_snd_cons in Hm as (spK & t1 & -> & Hm).
+    apply map_snd_app in Hm as (tk & t2 & -> & Hmk & Hm).
+    apply map_snd_app in Hm as (tvv & tv & -> & Hmvv & Hmv).
+    cbn [app] in Hv. rewrite <- !app_assoc in Hv.
+    rewrite (app_assoc (pre_events kn) (pre_events vn) [PMapEnd]) in Hb |- *.
+    apply bound_coll in Hb as [_ Hb]. cbn [env_step reg snd] in Hb.
+    rewrite bound_app in Hb. apply andb_prop in Hb as [Hbk Hbv].
+    rewrite number_coll, env_after_coll. cbn [env_step reg snd number1 fst tag_ev].
+    rewrite number_app, env_after_app.
+    (* 1: MappingStart *)
+    assert (E1 : fse_inner q = Ok ((EMappingStart 0 None, spK),
+                   mkp (tk ++ tvv ++ tv ++ y :: r) None SFlowSequenceEntryMappingKey (s :: k) (ae_map e) (ae_next e) tg kp))
+      by (unfold fse_inner; vpeek Hv; reflexivity).
+    (* 2: the key *)
+    destruct (first_tok_spanned _ _ _ _ Hwk Hmk) as (sp0 & y0 & tk' & -> & [S0 | [? _]]); [|discriminate].
+    set (e1 := env_after e (pre_events kn)) in *.
+    assert (Hn1 : (0 < ae_next e1)%N) by (apply env_after_pos; exact Hn).
+    (* 3: the value, from any parser in state MappingValue *)
+    assert (Hval : forall p2, view p2 = mkv (tvv ++ tv ++ y :: r) SFlowSequenceEntryMappingValue (s :: k) (ae_map e1) (ae_next e1) tg kp ->
+              exists p3 m, run (flow_sequence_entry_mapping_value p2) (number tg e1 (pre_events vn)) p3 /\
+                 view p3 = mkv (y :: r) (SFlowSequenceEntryMappingEnd m) (s :: k) (ae_map (env_after e1 (pre_events vn)))
+                               (ae_next (env_after e1 (pre_events vn))) tg kp).
+    { intros p2 V2. destruct vt.
+      - cbn in Hmvv. apply map_snd_cons in Hmvv as (spV & t3 & -> & Hm3). apply map_snd_nil in Hm3 as ->. cbn [app] in V2.
+        destruct (is_none vn) eqn:EN; cbn [orb] in Hwv.
+        + destruct vn; try discriminate. cbn [tokens_of] in Hmv. apply map_snd_nil in Hmv as ->. cbn [app] in V2.
+          destruct y as [spy ty]. cbn [snd] in Hy.
+          assert (Eq : flow_sequence_entry_mapping_value p2 =
+                       Ok ((empty_scalar, spy), mkp r (Some (spy, ty)) (SFlowSequenceEntryMappingEnd (sp_end spy)) (s :: k) (ae_map e1) (ae_next e1) tg kp))
+            by (unfold flow_sequence_entry_mapping_value; vpeek V2; cbn; destruct ty; try discriminate; reflexivity).
+          eexists; eexists. split; [eapply run_one; exact Eq | reflexivity].
+        + destruct (first_tok_spanned _ _ _ _ Hwv Hmv) as (sp1 & y1 & tv' & -> & [S1 | [? _]]); [|discriminate].
+          cbn [app] in V2.
+          assert (Eq : flow_sequence_entry_mapping_value p2 =
+                       parse_node (push_state (mkp (tv' ++ y :: r) (Some (sp1, y1)) SFlowSequenceEntryMappingValue (s :: k) (ae_map e1) (ae_next e1) tg kp)
+                                              (SFlowSequenceEntryMappingEnd (sp_end sp1))) false false)
+            by (unfold flow_sequence_entry_mapping_value; vpeek V2; cbn; start_cases y1; reflexivity).
+          rewrite Eq.
+          match type of Eq with _ = parse_node ?q' _ _ =>
+            destruct (Hvn false false q' ((sp1, y1) :: tv') y r SFlowSequenceEntryMappingValue (SFlowSequenceEntryMappingEnd (sp_end sp1))
+                         (s :: k) e1 tg kp Hwv eq_refl Hmv Hfy ltac:(discriminate) Hbv Hn1) as (p3 & R3 & V3)
+          end.
+          exists p3, (sp_end sp1). split; assumption.
+      - cbn [orb] in Hvt. destruct vn; try discriminate. cbn [tokens_of] in Hmv. apply map_snd_nil in Hmv as ->.
+        cbn in Hmvv. apply map_snd_nil in Hmvv as ->. cbn [app] in V2.
+        destruct y as [spy ty]. cbn [snd] in Hy.
+        assert (Eq : flow_sequence_entry_mapping_value p2 =
+                     Ok ((empty_scalar, spy), mkp r (Some (spy, ty)) (SFlowSequenceEntryMappingEnd (sp_end spy)) (s :: k) (ae_map e1) (ae_next e1) tg kp))
+          by (unfold flow_sequence_entry_mapping_value; vpeek V2; cbn; destruct ty; try discriminate; reflexivity).
+        eexists; eexists. split; [eapply run_one; exact Eq | reflexivity]. }
+    (* the token after the key *)
+    assert (Hyk : exists yk rk, tvv ++ tv ++ y :: r = yk :: rk /\ follow (snd yk) = true).
+    { destruct vt; cbn in Hmvv.
+      - apply map_snd_cons in Hmvv as (spV & t3 & -> & _). cbn. eauto.
+      - apply map_snd_nil in Hmvv as ->. cbn [orb] in Hvt. destruct vn; try discriminate.
+        cbn [tokens_of] in Hmv. apply map_snd_nil in Hmv as ->. cbn. eauto. }
+    destruct Hyk as (yk & rk & Eyk & Hfyk).
+    assert (E2 : state_machine (mkp (((sp0, y0) :: tk') ++ tvv ++ tv ++ y :: r) None SFlowSequenceEntryMappingKey (s :: k) (ae_map e) (ae_next e) tg kp) =
+                 parse_node (push_state (mkp (tk' ++ tvv ++ tv ++ y :: r) (Some (sp0, y0)) SFlowSequenceEntryMappingKey (s :: k) (ae_map e) (ae_next e) tg kp)
+                                        SFlowSequenceEntryMappingValue) false false)
+      by (unfold state_machine, flow_sequence_entry_mapping_key; cbn; start_cases y0; reflexivity).
+    match type of E2 with _ = parse_node ?q' _ _ =>
+      destruct (Hk false false q' ((sp0, y0) :: tk') yk rk SFlowSequenceEntryMappingKey SFlowSequenceEntryMappingValue
+                   (s :: k) e tg kp Hwk ltac:(cbn [view upcoming mkp push_state set_states p_token p_toks p_state p_states p_anchors p_anchor_id p_tags p_keep_tags app]; rewrite Eyk; reflexivity)
+                   Hmk Hfyk ltac:(discriminate) Hbk Hn) as (p2 & R2 & V2)
+    end.
+    destruct (Hval p2 ltac:(rewrite V2; f_equal; symmetry; exact Eyk)) as (p3 & m & R3 & V3).
+    exists (set_state p3 SFlowSequenceEntry). split; [|eapply view_set_state; exact V3].
+    eapply run_cons; [exact E1|].
+    eapply steps_app.
+    { apply run_steps. rewrite E2. exact R2. }
+    eapply steps_app.
+    { apply run_steps. rewrite (sm_fsem_value p2 (view_state _ _ _ _ _ _ _ _ V2)). exact R3. }
+    econstructor; [|constructor].
+    rewrite (sm_fsem_end p3 m (view_state _ _ _ _ _ _ _ _ V3)). reflexivity.
 Qed.
